@@ -123,7 +123,7 @@ WHERES = [
     # solution sequences with repeated solutions (one template instantiation, one fresh node, per occurrence)
     ("{ SELECT ?s WHERE { ?s ?p ?o } }", False),
     ("{ ?s <http://e/p> ?o } UNION { ?s ?p ?o }", False),
-    # the WHERE clause is one sub-select (u.where is the sub-select itself, no Join(BGP [], ...) on top): ModifyS
+    # the WHERE clause is one sub-select (u.where is the sub-select itself, no Join(BGP [], ...) on top)
     ("SELECT ?s WHERE { ?s ?p ?o }", False),
 ]
 BARE_WHERES = [k for k, (t, _) in enumerate(WHERES) if t.startswith("SELECT")]
@@ -333,9 +333,9 @@ def c_op(op, om):
         _, w, ud, un, d, i, wk = op
         return "ModifyW %s %s %s %s %s %s" % (copt(w, cN), clist(cN(c) for c in ud), clist(cN(c) for c in un),
                                              copt(d, c_tmpl), copt(i, c_tmpl), where_alg(wk))
-    if k in ("modify", "modifys"):
+    if k in ("modify", "modifys"):  # "modifys" (older corpus cases): WHERE is one bare sub-select; same model operation
         _, w, ud, un, d, i, wk = op
-        return ("ModifyS" if k == "modifys" else "Modify") + " %s %s %s %s %s %s" % (copt(w, cN), cbool(ud), cbool(un), copt(d, c_tmpl), copt(i, c_tmpl), c_omega(om))
+        return "Modify %s %s %s %s %s %s" % (copt(w, cN), cbool(ud), cbool(un), copt(d, c_tmpl), copt(i, c_tmpl), c_omega(om))
     if k == "create":
         return "Create %s %s" % (cbool(op[1]), cN(op[2]))
     con = {"clear": "Clear", "drop": "Drop", "add": "Add", "move": "Move", "copy": "Copy"}[k]
@@ -466,7 +466,7 @@ class C10(Suite):
     case_ty = "case"
     obs_ty = "obs"
     kf = "kf"
-    kf_ids = {4: "F10l"}
+    kf_ids = {}
     corr = ("update.evalUpdate/evalInsertData/evalDeleteData/evalDeleteWhere/evalModify/evalClear/evalDrop/evalAdd/"
             "evalMove/evalCopy/_graphAll/_graphOrDefault, evalutils._fillTemplate")
     quick_n = 900
@@ -594,7 +594,7 @@ class C10(Suite):
             # a solution SEQUENCE with repeated solutions: every occurrence instantiates the template, with its own
             # fresh nodes (sub-select that projects the distinguishing variable away; UNION of overlapping branches)
             wk = rng.choice(DUP_WHERES + BARE_WHERES)
-            return ["modifys" if wk in BARE_WHERES else kind, w, ud, un, d, i, wk]
+            return [kind, w, ud, un, d, i, wk]
         if rng.random() < 0.55:
             # the model evaluates the WHERE clause itself (operation ModifyW): any pattern of the fragment
             # BGP / Join / GRAPH under any WITH / USING / USING NAMED combination, also where rdflib's
